@@ -25,6 +25,12 @@ L_STAG = "P2.1 O R0:-:- P0.1 P1.1 O P1.1 P3.1 O"
 L_STAGb = "P0.1 O R0:-:- P1.1 P3.1 O P0.1 P1.1 O"
 # tables renamed to the legacy LevelDB name NNNNNN.sst while the database is closed (op X)
 L_SST = "P0.1 F P1.1 F X"
+# one table on each of levels 2, 1, 0 around key #1 ("a" lives in level 2 only; the level-1 and level-0 tables span it without
+# holding it): a lookup of key #1 probes three tables, and 100 of them exhaust the seek allowance of the level-0 table
+L_3LVL = "P1.1 F P0.1 P2.1 F P0.1 P3.1 F"
+# seek-triggered compactions (alphabet "seek": one hundred lookups of EACH key as an operation) on layered layouts
+SEEK_Q = ["B1~seek@0/2^" + L_3LVL, "B1~seek@0/1^" + L_DEEP, "B1~seek@0/1^" + L_BOTTOM]
+SEEK_T = ["B1~seek@0/3^" + L_3LVL, "B1~seek@0/2^" + L_DEEP, "B1~seek@0/2^" + L_BOTTOM, "B1~seek@0/2^" + L_BIG, "B1,cmp=1~seek@0/2^" + L_3LVL, "B1~seek@3/2"]
 OVL_Q = ["B1~rwr@0/2^" + L_OVL, "B1~rwr@0/2^" + L_OVL2, "B1~rwr@0/1^" + L_OVL3, "B1~rwr@0/1^" + L_OVL3b, "B1~rwr@0/1^" + L_STAG, "B1~rwr@0/1^" + L_STAGb]
 OVL_T = ["B1~rwr@0/3^" + L_OVL, "B1~rwr@0/3^" + L_OVL2, "B1~rwr@0/2^" + L_OVL3, "B1~rwr@0/2^" + L_OVL3b, "B1~rwr@0/2^" + L_STAG, "B1~rwr@0/2^" + L_STAGb]
 # 6 keys; files g=[b..e] in level 2, x1=[a..k] in level 1, F=[c..k] in level 0, a snapshot pins the older version of k;
@@ -51,7 +57,7 @@ def c01_plan(tier):
     if tier == "quick":
         it = ["B1@0/4"] + ["B1,%s@0/2" % t for t in TOGGLES] + ["B2@0/2"]
         it += ["B1@2^" + L_DEEP, "B1,bloom=1,cache=1,mmap=0,snappy=1@2^" + L_DEEP, "B1@2^" + L_TOMB]
-        it += OVL_Q + ["B1~rwr@0/1^" + L_DEEP, "B1,mof=11@0/2^" + L_DEEP, "B2,reuse=1@2^P1.5 O", "B1@0/2^" + L_BOTTOM, "B1@0/2^" + L_SST] + NOCASE_ITEMS + LONGMAN_ITEMS + [SPLIT_CFG + "@0/2^" + L_SPLIT]
+        it += OVL_Q + ["B1~rwr@0/1^" + L_DEEP, "B1,mof=11@0/2^" + L_DEEP, "B2,reuse=1@2^P1.5 O", "B1@0/2^" + L_BOTTOM, "B1@0/2^" + L_SST] + NOCASE_ITEMS + LONGMAN_ITEMS + [SPLIT_CFG + "@0/2^" + L_SPLIT] + SEEK_Q
     else:
         it = ["B1@0/5"] + ["B1,%s@4/3" % t for t in TOGGLES] + ["B2@3/3", "B2,snappy=1,bloom=1@3/2"]
         # full cross product of the boolean toggles at depth 2 (no dedup)
@@ -64,7 +70,7 @@ def c01_plan(tier):
                 it.append("B1,%s@0/2" % ",".join(t))
         it += [NOCASE + "@4/3", NOCASE + "@2^P0.1 F P1.1 F P3.1 F P4.1 F", NOCASE + "@3^P0.1 F D1 F", NOCASE + "@3^P3.1 F P4.2 F D3"] + LONGMAN_ITEMS + ["B1,reuse=1,uni=2@2^" + L_LONGMAN]
         it += [SPLIT_CFG + "@0/3^" + L_SPLIT, SPLIT_CFG + "@0/2^" + L_SPLIT + " R0:5:5"]
-        it += OVL_T + ["B1@3^" + L_BOTTOM, "B1~rwr@0/2^" + L_BOTTOM, "B2,reuse=1@3^P1.5 O", "B2,reuse=1@2^P0.5 O", "B2,reuse=1@2^P2.5 O", "B2,reuse=1@2^P1.5 O P0.1 O", "B1,mof=11@3^" + L_DEEP, "B1,mof=11,mmap=0@3^" + L_BIG, "B1~rwr@0/2^" + L_DEEP, "B1,cmp=1~rwr@0/2^" + L_OVL, "B1~rwr@3/2"]
+        it += OVL_T + SEEK_T + ["B1@3^" + L_BOTTOM, "B1~rwr@0/2^" + L_BOTTOM, "B2,reuse=1@3^P1.5 O", "B2,reuse=1@2^P0.5 O", "B2,reuse=1@2^P2.5 O", "B2,reuse=1@2^P1.5 O P0.1 O", "B1,mof=11@3^" + L_DEEP, "B1,mof=11,mmap=0@3^" + L_BIG, "B1~rwr@0/2^" + L_DEEP, "B1,cmp=1~rwr@0/2^" + L_OVL, "B1~rwr@3/2"]
         for L in (L_DEEP, L_TOMB, L_SNAP, L_BIG):
             it += ["B1@3^" + L, "B1,bloom=1,cache=1,mmap=0,snappy=1@3^" + L, "B1,cmp=1@2^" + L]
     return plan(it)
@@ -309,8 +315,8 @@ ENGINES["fault"] = "E4: fault-site enumerator over the call log of the in-memory
 
 def c14_plan(tier):
     if tier == "quick":
-        return plan(["B1@4/3", "B1,snappy=1,bloom=1@0/2", "B1,cmp=1@0/2", NOCASE + "@0/2", "B2@0/2"] + LONGMAN_ITEMS + [SPLIT_CFG + "@0/2^" + L_SPLIT, "B1@2^" + L_DEEP, "B1@2^" + L_BIG, "B1@2^" + L_SNAP, "B1@2^" + L_BOTTOM, "B1@2^" + L_SST] + OVL_Q)
-    return plan(OVL_T + ["B1@3^" + L_BOTTOM, "B1@5/4", "B1,snappy=1,bloom=1@4/3", "B1,cmp=1@4/3", NOCASE + "@3/3", "B1,reuse=1@3/3", "B2@3/2", SPLIT_CFG + "@0/3^" + L_SPLIT, "B1@3^" + L_DEEP, "B1@3^" + L_BIG,
+        return plan(["B1@4/3", "B1,snappy=1,bloom=1@0/2", "B1,cmp=1@0/2", NOCASE + "@0/2", "B2@0/2"] + LONGMAN_ITEMS + [SPLIT_CFG + "@0/2^" + L_SPLIT, "B1@2^" + L_DEEP, "B1@2^" + L_BIG, "B1@2^" + L_SNAP, "B1@2^" + L_BOTTOM, "B1@2^" + L_SST] + OVL_Q + SEEK_Q)
+    return plan(OVL_T + SEEK_T + ["B1@3^" + L_BOTTOM, "B1@5/4", "B1,snappy=1,bloom=1@4/3", "B1,cmp=1@4/3", NOCASE + "@3/3", "B1,reuse=1@3/3", "B2@3/2", SPLIT_CFG + "@0/3^" + L_SPLIT, "B1@3^" + L_DEEP, "B1@3^" + L_BIG,
                  "B1@3^" + L_SNAP, "B1,cmp=1@3^" + L_DEEP, "B1,snappy=1,bloom=1@3^" + L_BIG])
 
 
